@@ -1,10 +1,10 @@
 CONSTANTS W = 5
-FLO = 0
-FHI = 0
+FLO = 2
+FHI = 1
 NEEDNINT = FALSE
 INIT Init
 NEXT Next
 CHECK_DEADLOCK FALSE
 INVARIANT I_DivOK
 INVARIANT I_FloorModOK
-INVARIANT Emit
+INVARIANT EmitDiv
